@@ -139,3 +139,29 @@ Theorem C11_nucleation_sites_perm (ps ps' : list (sphase Rops)) (M : matrixSites
   nucSites Rops ps M p = nucSites Rops ps' M p.
 Proof. exact (nucSites_perm ps ps' M p). Qed.
 Print Assumptions C11_nucleation_sites_perm.
+
+(* ---------------------------------------------------------------------------------------- *)
+(* Part C [ext] - run level.  If the phases of a multi-phase model interact only through        *)
+(* quantities that do not depend on the listing order (hypothesis [shared_perm]: the step size,  *)
+(* nucleation sites, matrix composition are minima / sums over the phases), then a run started    *)
+(* from the permuted listing yields, step by step, the permuted per-phase states and the same      *)
+(* shared history (time grid).  [kwn_step l = map (upd (shared l)) l].                            *)
+Close Scope R_scope.
+Theorem C11_run_equivariant (St G : Type) (shared : list St -> G) (upd : G -> St -> St) :
+  (forall l l', Permutation l l' -> shared l = shared l') ->
+  forall n d l idx, Permutation idx (seq 0 (length l)) ->
+  kwn_run St G shared upd n (reorder d l idx) = reorder d (kwn_run St G shared upd n l) idx /\
+  shared (kwn_run St G shared upd n (reorder d l idx)) = shared (kwn_run St G shared upd n l).
+Proof. exact (kwn_run_reorder St G shared upd). Qed.
+Print Assumptions C11_run_equivariant.
+
+(* the hypothesis is met by the step size of the model: for ANY per-phase update rule, runs whose
+   phases are coupled through dt = getDt are equivariant *)
+Theorem C11_run_with_getDt_equivariant (c : cons Rops) npos Tcur Tprev vmAlpha dtPrev dtMax
+      (upd : R -> phase Rops -> phase Rops) n d (ps : list (phase Rops)) idx :
+  Permutation idx (seq 0 (length ps)) ->
+  let dt := fun l => getDt Rops c npos Tcur Tprev l vmAlpha dtPrev dtMax in
+  kwn_run _ _ dt upd n (reorder d ps idx) = reorder d (kwn_run _ _ dt upd n ps) idx /\
+  dt (kwn_run _ _ dt upd n (reorder d ps idx)) = dt (kwn_run _ _ dt upd n ps).
+Proof. exact (run_with_getDt_equivariant c npos Tcur Tprev vmAlpha dtPrev dtMax upd n d ps idx). Qed.
+Print Assumptions C11_run_with_getDt_equivariant.
